@@ -1,9 +1,12 @@
-(* C08 - Spread rewards and incentives reach exactly the liquidity that earned them.  Theorem file. *)
-From Coq Require Import ZArith List Bool.
+(* C08 - Spread rewards and incentives reach exactly the liquidity that earned them.  Theorem file.
+   Model: CL/*.v (shared pool model) + CLR/*.v (reward bookkeeping); proofs: C08/*.v.  See C08/STATUS.md. *)
+From Coq Require Import ZArith List Bool Lia.
 Import ListNotations.
-From Osmo Require Import CL.CLPool CL.CLSwap CL.CLStep CLR.RSwap CLR.RStep C08.Proj.
+From Osmo Require Import CL.CLPool CL.CLSwap CL.CLStep CLR.Accum CLR.Rewards CLR.RSwap CLR.RStep
+  C08.Proj C08.Telescope C08.View C08.Static C08.Ops C08.OpInside C08.SwapTrace C08.Crux C08.Check.
 Open Scope Z_scope.
 
+(* ---- the reward model extends the shared pool model conservatively ---- *)
 Theorem C08_failed_step_unchanged : forall rs o rs', rstep rs o = (rs', None) -> rs' = rs.
 Proof. exact rstep_failed_unchanged. Qed.
 Print Assumptions C08_failed_step_unchanged.
@@ -19,3 +22,84 @@ Theorem C08_event_loop_is_swap_loop_in : forall fuel zfo accum spf scaling limit
   = loop_in_given_out fuel zfo accum spf scaling limit st iter noprog.
 Proof. exact eloop_in_fst. Qed.
 Print Assumptions C08_event_loop_is_swap_loop_in.
+
+(* ---- the crux: tick-snapshot invariant and telescoping, abstract machine (one scalar accumulator component) ---- *)
+Theorem C08_tick_snapshot_telescopes : forall evs s l u, l < u -> tm_sorted (a_O s) -> keys s l -> keys s u ->
+  evs_wf s evs -> evs_keep evs l -> evs_keep evs u ->
+  a_inside (a_run s evs) l u = a_inside s l u + in_range_growth s evs l u.
+Proof. exact a_telescope. Qed.
+Print Assumptions C08_tick_snapshot_telescopes.
+
+Example C08_tick_snapshot_telescopes_nonvacuous :
+  let s := mkA 5 100 [(0, 100); (10, 0)] in
+  let evs := [AGrow 7; ACross 10 10; AGrow 5; ACross 10 9; AGrow 3; AInit 20; ARemove 20] in
+  0 < 10 /\ tm_sorted (a_O s) /\ keys s 0 /\ keys s 10 /\ evs_wf s evs /\ evs_keep evs 0 /\ evs_keep evs 10
+  /\ in_range_growth s evs 0 10 = 10 /\ a_inside (a_run s evs) 0 10 = a_inside s 0 10 + 10.
+Proof.
+  intros s evs. split; [lia|]. split; [apply tm_sorted_b_ok; reflexivity|].
+  split; [unfold keys; simpl; discriminate|]. split; [unfold keys; simpl; discriminate|].
+  split; [apply evs_wf_b_ok; vm_compute; reflexivity|].
+  split; [simpl; repeat split; lia|]. split; [simpl; repeat split; lia|].
+  split; vm_compute; reflexivity.
+Qed.
+
+(* ---- growth_inside_telescopes for the model: every history of operations, every component, every kept tick pair ---- *)
+Theorem C08_growth_inside_telescopes : forall ops k rs l u, l < u -> tt_ok k rs l u -> hist_ok k rs ops l u ->
+  a_inside (rview k (rrun rs ops)) l u = a_inside (rview k rs) l u + hist_growth k rs ops l u.
+Proof. exact growth_inside_telescopes. Qed.
+Print Assumptions C08_growth_inside_telescopes.
+
+(* the model's own growth-inside values are the abstract ones *)
+Theorem C08_spread_growth_inside_is_abstract : forall d w cur lo hi out ins, spread_growth_outside w cur lo hi = Some out ->
+  dc_safe_sub (ac_value (rw_spread w)) out = Some ins ->
+  dsel d ins = a_inside (view (CS d) w cur dc0) lo hi.
+Proof. exact spread_growth_inside_view. Qed.
+Print Assumptions C08_spread_growth_inside_is_abstract.
+
+Theorem C08_uptime_growth_inside_is_abstract : forall u d w cur lo hi ins, lo < hi -> (u < length (rw_up w))%nat ->
+  uptime_growth_inside w cur lo hi = Some ins ->
+  dsel d (nth u ins dc0) = a_inside (view (CU u d) w cur dc0) lo hi.
+Proof. exact uptime_growth_inside_view. Qed.
+Print Assumptions C08_uptime_growth_inside_is_abstract.
+
+(* one non-swap operation: the whole growth if the current tick is in range, nothing otherwise *)
+Theorem C08_growth_inside_static_op : forall k rs o rs' r l u,
+  rhandler rs o = Some (rs', r) -> is_swap o = false -> cur_tick rs' = cur_tick rs -> mid_tick_ok rs o ->
+  l < u -> tm_sorted (vmap k (rw_tt (r_rw rs))) ->
+  tt_get (rw_tt (r_rw rs)) l <> None -> tt_get (rw_tt (r_rw rs)) u <> None ->
+  ~ In l (touched rs o) -> ~ In u (touched rs o) ->
+  a_inside (rview k rs') l u =
+    a_inside (rview k rs) l u
+    + (if (l <=? cur_tick rs) && (cur_tick rs <? u) then sel_G k (r_rw rs') - sel_G k (r_rw rs) else 0).
+Proof. exact op_inside_static. Qed.
+Print Assumptions C08_growth_inside_static_op.
+
+(* a history with two crossings of tick 1000 (up, then down) by swaps, an incentive, time advances and a collect: position 2
+   on [1000, 3000) - out of range at first - earns exactly the growth that accrued while the tick was inside *)
+Definition ex_rs0 : rstate :=
+  rrun (rinit 0x64 0x71afd498d0000 0x2cd76fe086b93ce2f768a00b22a00000000000 0x2cd76fe086b93ce2f768a00b22a00000000000
+          [(0xc9f2c9cd04674edea40000000, 0xc9f2c9cd04674edea40000000); (0xc9f2c9cd04674edea40000000, 0xc9f2c9cd04674edea40000000);
+           (0xc9f2c9cd04674edea40000000, 0xc9f2c9cd04674edea40000000)] 0x6553f100)
+       [RBase (OCreate 0x0 0x3b9aca00 0x3b9aca00 0x0 0x0 (-0x186a0) 0x186a0);
+        RBase (OCreate 0x1 0x989680 0x0 0x0 0x0 0x3e8 0xbb8)].
+Definition ex_ops : list rop :=
+  [RIncentive 0x2 0x0 0xf4240 0xde0b6b3a7640000 0x0 0x0;
+   RBase (OTime 0x64);
+   RBase (OSwapIn 0x2 false 0x1c9c380 0x1);
+   RBase (OTime 0x32);
+   RBase (OSwapIn 0x2 true 0x3938700 0x1);
+   RCollectSpread 0x0 [0x1]].
+Example C08_growth_inside_telescopes_nonvacuous :
+  tt_ok (CS true) ex_rs0 1000 3000 /\ hist_ok (CS true) ex_rs0 ex_ops 1000 3000
+  /\ 0 < hist_growth (CS true) ex_rs0 ex_ops 1000 3000
+  /\ tt_ok (CU 0 false) ex_rs0 1000 3000 /\ hist_ok (CU 0 false) ex_rs0 ex_ops 1000 3000
+  /\ 0 < hist_growth (CU 0 false) ex_rs0 ex_ops 1000 3000
+  /\ hist_growth (CS true) ex_rs0 ex_ops 1000 3000 < hist_growth (CS true) ex_rs0 ex_ops (-100000) 100000.
+Proof.
+  split; [apply tt_ok_b_ok; vm_compute; reflexivity|].
+  split; [apply hist_ok_b_ok; vm_compute; reflexivity|].
+  split; [vm_compute; reflexivity|].
+  split; [apply tt_ok_b_ok; vm_compute; reflexivity|].
+  split; [apply hist_ok_b_ok; vm_compute; reflexivity|].
+  split; vm_compute; reflexivity.
+Qed.
